@@ -194,3 +194,41 @@ impl TryFrom<HandshakeState> for TransportState {
         TransportState::new(old)
     }
 }
+
+#[cfg(all(feature = "verif-hooks", not(feature = "std")))]
+use alloc::boxed::Box;
+
+#[cfg(feature = "verif-hooks")]
+impl TransportState {
+    /// Verification hook: place a stateful transport session in an arbitrary state.
+    #[allow(clippy::too_many_arguments)]
+    #[must_use]
+    pub fn verif_from_parts(
+        cipher_i: Box<dyn crate::types::Cipher>,
+        nonce_i: u64,
+        cipher_r: Box<dyn crate::types::Cipher>,
+        nonce_r: u64,
+        pattern: HandshakePattern,
+        dh_len: usize,
+        rs: [u8; MAXDHLEN],
+        rs_on: bool,
+        initiator: bool,
+    ) -> Self {
+        use crate::cipherstate::CipherState;
+        let cipherstates = CipherStates(
+            CipherState::verif_from_parts(cipher_i, nonce_i, true),
+            CipherState::verif_from_parts(cipher_r, nonce_r, true),
+        );
+        let rs = if rs_on { Toggle::on(rs) } else { Toggle::off(rs) };
+        TransportState { cipherstates, pattern, dh_len, rs, initiator }
+    }
+
+    /// Verification hook: set the forthcoming *outbound* nonce value.
+    pub fn verif_set_sending_nonce(&mut self, nonce: u64) {
+        if self.initiator {
+            self.cipherstates.0.set_nonce(nonce);
+        } else {
+            self.cipherstates.1.set_nonce(nonce);
+        }
+    }
+}
